@@ -186,13 +186,16 @@ func VerifC01DidChange()     { verifC01DidChange(2, 1) }
 func VerifC01DidChangeLong() { verifC01DidChange(4, 2) }
 
 // several changes in one notification apply in order, each against the result of the
-// previous one. Positions come from a small set that includes the origin, a position past the
-// line end and one past the document end; texts are symbolic.
+// previous one. Positions come from a small set that includes the origin, positions that lie
+// past the line end BEFORE an earlier change of the same notification and inside the line after
+// it, a position past the line end and one past the document end; texts are symbolic.
 var c01Spots = []protocol.Range{
 	{Start: protocol.Position{Line: 0, Character: 0}, End: protocol.Position{Line: 0, Character: 0}},
 	{Start: protocol.Position{Line: 0, Character: 1}, End: protocol.Position{Line: 0, Character: 1}},
 	{Start: protocol.Position{Line: 0, Character: 0}, End: protocol.Position{Line: 0, Character: 1}},
 	{Start: protocol.Position{Line: 0, Character: 1}, End: protocol.Position{Line: 1, Character: 0}},
+	{Start: protocol.Position{Line: 0, Character: 2}, End: protocol.Position{Line: 0, Character: 2}},
+	{Start: protocol.Position{Line: 0, Character: 3}, End: protocol.Position{Line: 0, Character: 3}},
 	{Start: protocol.Position{Line: 0, Character: 9}, End: protocol.Position{Line: 1, Character: 1}},
 	{Start: protocol.Position{Line: 7, Character: 0}, End: protocol.Position{Line: 7, Character: 3}},
 }
